@@ -135,6 +135,9 @@ Ones(n) == [i \in 1..n |-> 1]
 WideOf(n) == { G("LineString", PathK(0, n)), G("MultiPoint", PathK(1, n)), G("Polygon", PathsK(1, Ones(n))),
                G("MultiLineString", PathsK(2, Ones(n))), G("MultiPolygon", [p \in 1..n |-> PathsK(p, <<1>>)]),
                G("GeometryCollection", [i \in 1..n |-> G("Point", PtK(i))]) }
-Wide(NS, NB) == LET W == UNION {WideOf(n) : n \in NS} \cup {G("LineString", PathK(0, n)) : n \in NB}
+(* long point arrays repeat the pool with period 35, which shares no factor with a power-of-two buffer size *)
+PtL(k) == <<Pool[(k % 7) + 1], Pool[((3 * k + 1) % 5) + 1]>>
+PathL(n) == [q \in 1..n |-> PtL(q)]
+Wide(NS, NB) == LET W == UNION {WideOf(n) : n \in NS} \cup {G("LineString", PathL(n)) : n \in NB} \cup {G("Polygon", <<PathL(n)>>) : n \in NB}
                 IN W \cup {G("GeometryCollection", <<w, G("Point", PtK(3))>>) : w \in W}
 =============================================================================
